@@ -5,7 +5,7 @@ from props import _whatwg
 
 ID = "C01"
 PROPS_MODULE = "H5.Props.C01"
-EXTRA_PROPS_MODULES = ["H5.Spec.TreeProps"]
+EXTRA_PROPS_MODULES = ["H5.Spec.TreeProps", "H5.Props.C01b"]
 GEN_MODULES = ["Dispatch", "ParserLiterals", "Constants"]
 CORRESPONDENCE_OPS = ["treev", "parse", "treecmp"]
 SOURCES = ["html5lib/html5parser.py", "html5lib/treebuilders/base.py", "html5lib/constants.py", "html5lib/_tokenizer.py"]
